@@ -23,6 +23,8 @@ class PathView:
         for st in self.steps:
             self._envs.append(dict(env))
             assigned = step_assigned(st)
+            old_env = env
+            env = dict(env)
             # drop definitions that read or are a re-assigned name
             for name in list(env):
                 if name in assigned or (norm.names_in(env[name]) & assigned):
@@ -32,6 +34,9 @@ class PathView:
                 if isinstance(t, ast.Name) and not _contains_await(st.node.value):
                     if t.id not in norm.names_in(st.node.value):
                         env[t.id] = st.node.value
+                    elif t.id in old_env and not (norm.names_in(old_env[t.id]) & (assigned - {t.id})):
+                        # x = f(x): fold the previous definition in
+                        env[t.id] = norm.substitute(st.node.value, {t.id: old_env[t.id]}, None, 1)
             elif st.kind == "stmt" and isinstance(st.node, ast.AnnAssign) and st.node.value is not None:
                 t = st.node.target
                 if isinstance(t, ast.Name) and t.id not in norm.names_in(st.node.value):
